@@ -34,9 +34,12 @@ Mixfix == <<"mixfix", <<Left(Right(Str(<<lpar>>), Ref("E")), Str(<<rpar>>))>>>>
 (* an operator that can fail after consuming: "-" followed by "+" (two tokens, value "+") *)
 TwoTok == <<Right(Str(<<minus>>), Str(<<plus>>))>>
 
+(* a second mixfix form that extends the first one: "(" E ")" "+"  - among mixfix rows the longest match wins, too *)
+Mixfix2 == <<"mixfix", <<Left(Left(Right(Str(<<lpar>>), Ref("E")), Str(<<rpar>>)), Str(<<plus>>))>>>>
+
 Rows == {<<as, ops>> : as \in {"left", "right", "infix", "prefix", "postfix"}, ops \in OpsChoices}
         \cup {<<as, TwoTok>> : as \in {"left", "prefix", "postfix"}}
-        \cup {Mixfix}
+        \cup {Mixfix, Mixfix2}
 
 Operands == << Str(<<one>>),                                   \* literal: cannot partially succeed
                Ref("N"),                                       \* rule reference
@@ -64,7 +67,9 @@ Texts == TextSeqUpTo(<<one, minus, plus>>, IF Tier = "quick" THEN 5 ELSE 6)
                <<one, plus, lpar, minus, one, rpar>>, <<lpar, lpar, one, rpar, rpar, plus>>,
                <<one, two, plus, one, two>>, <<one, plus, plus, plus, one>>, <<one, semi>>,
                <<minus, semi>>, <<one, plus, semi>>, <<one, plus, plus, one, plus, plus, one>>,
-               <<one, minus, one, minus, one, minus, one>>, <<minus, minus, one, plus, plus>> >>
+               <<one, minus, one, minus, one, minus, one>>, <<minus, minus, one, plus, plus>>,
+               <<lpar, one, rpar, plus, one>>, <<lpar, one, rpar, plus>>, <<lpar, one, rpar, plus, minus, one>>,
+               <<lpar, lpar, one, rpar, plus, rpar, plus, one>>, <<lpar, one, rpar, plus, plus, one>> >>
 
 TextsShort == TextSeqUpTo(<<one, minus, plus>>, 5)
 
